@@ -222,7 +222,8 @@ Definition dec_cp_call (x : sexp) : option cp_call :=
 Definition dispatch_c16 (fn : N) (args : list sexp) : sexp :=
   match fn, args with
   | 0, [] => L [enc_policy env_undefined_policy; enc_policy native_undefined_policy;
-                enc_bool env_repr_fails; enc_bool native_repr_fails; enc_bool native_result_checked]
+                enc_bool env_repr_fails; enc_bool native_repr_fails; enc_bool native_result_checked;
+                enc_bool falsy_include_if_skips_evaluation]
   | 3, [A sel; A rf; A nrf; A nc; oc; c; A mode] =>
     match dec_octx oc, dec_cell c with
     | Some octx, Some cl =>
